@@ -213,12 +213,11 @@ func runGatedCleanup(t *testing.T, c ccCase) (coq string, flags map[string]bool,
 				g.pending, g.release = "", nil
 				g.mu.Unlock()
 
-				switch kind {
-				case "GList":
-					createdSinceList = false
+				switch kind { //nolint:gocritic
 				case "GRemFin":
 					// monitor (third clause of C07): the release is issued only while no dependent exists - unless a
-					// dependent was created after the handler looked (excluded by the property's assumption)
+					// dependent was created since this pass began, possibly after a handler had looked (excluded by the
+					// property's assumption; with combined handlers the first may have listed before the creation)
 					if in := get("T", "a"); in != nil && in.Metadata().Phase() == resource.PhaseTearingDown && !createdSinceList {
 						for _, k := range kinds {
 							for _, id := range []string{"d1", "d2"} {
@@ -272,6 +271,8 @@ func runGatedCleanup(t *testing.T, c ccCase) (coq string, flags map[string]bool,
 				synctest.Wait()
 
 				inPass = true
+				createdSinceList = false // a new pass: every handler lists after this point
+
 				add("(CRestart, GNone)", "0%N")
 				flags["restart"] = true
 
